@@ -748,8 +748,13 @@ def r5_codes(program, rep, folder, fn, fl, cfg, inst):
             raise AnalysisError("send_scp_burst: the reply header format")
     else:
         raise AnalysisError("send_scp_burst: the reply header unpack call")
+    # ('<2H' and '<HH' are the same layout: compared field by field)
+    def _expand(f_):
+        import re
+        return f_[:1] + "".join(c_ * (int(n_) if n_ else 1) for n_, c_ in
+                                re.findall(r"(\d*)([A-Za-z?])", f_[1:]))
     ok6 = off == struct.calcsize("<2x8B") and isinstance(fmt, str) and \
-        fmt.replace(" ", "") == "<2H"
+        _expand(fmt.replace(" ", "")) == "<HH"
     # the receive buffer takes the largest reply whole: 2 bytes of padding,
     # the SDP header, cmd_rc and seq, and buffer_size bytes of data
     recvs = [c for c in ast.walk(fn) if isinstance(c, ast.Call) and
